@@ -22,7 +22,7 @@ META = dict(
     stubs=["os.listdir/os.readlink/os.stat on /proc/<pid>/fd/*", "open() of /proc/<pid>/fdinfo/<fd>, /proc/<pid>/io, /proc/<pid>/stat"],
     bounds=dict(quick=dict(descriptors="0..2, each of 11 symbolic kinds", flags="[0, 2^22)", position="[0, 2^63]"), thorough=dict(descriptors="0..3", flags="[0, 2^22)", position="[0, 2^63]")),
     outside=["more than 3 descriptors", "link targets with symbolic characters (C12 covers link-target clean-up)"],
-    labels=["mode-table", "no-exception-live-process", "num_fds", "exactly-regular-files", "entry-fields", "io-six-fields"],
+    labels=["mode-table", "no-exception-live-process", "num_fds", "exactly-regular-files", "entry-fields", "io-six-fields", "exit-mid-scan-NoSuchProcess"],
 )
 
 
@@ -53,7 +53,7 @@ def flags_mode(ctx):
         ctx.prove(exc is None and m == want, "mode-table", detail=f"got {m!r} / {exc!r}, want {want!r}")
 
 
-KINDS = ["reg", "deleted", "deleted_stale", "relative", "relative_existing", "socket", "pipe", "anon", "chardev", "toolong", "notlink", "closed_at_readlink", "closed_at_readlink_esrch", "closed_at_fdinfo", "closed_at_fdinfo_esrch", "directory"]
+KINDS = ["reg", "deleted", "deleted_stale", "nul_deleted", "relative", "relative_existing", "socket", "pipe", "anon", "chardev", "toolong", "notlink", "closed_at_readlink", "closed_at_readlink_esrch", "closed_at_fdinfo", "closed_at_fdinfo_esrch", "directory"]
 
 
 @harness("C14.open_files", quick=[dict(n=n, acc3=False) for n in (0, 1, 2)] + [dict(n=1, acc3=True)], thorough=[dict(n=n, acc3=False) for n in (0, 1, 2, 3)] + [dict(n=n, acc3=False, nsym=2) for n in (4, 5)] + [dict(n=2, acc3=True)])
@@ -93,6 +93,12 @@ def open_files(ctx, n, acc3, nsym=None):
                 k.files[info] = simk.oserr(errno.ESRCH if kind.endswith("esrch") else errno.ENOENT, info)
             else:
                 want.append((path, fd, pos, flags))
+        elif kind == "nul_deleted":
+            # the link reads back as the path, a NUL and trailing garbage that happens to look like the kernel's suffix (issue 717)
+            path = f"/data/file{i}"
+            k.links[link] = path + "\x00 (deleted)"
+            k.stats[path] = simk.StatResult()
+            want.append((path, fd, pos, flags))
         elif kind == "relative":
             k.links[link] = "relative/path"
         elif kind == "relative_existing":
@@ -168,6 +174,49 @@ def io_counters(ctx, njunk):
     ctx.prove(exc is None and r._fields == ("read_count", "write_count", "read_bytes", "write_bytes", "read_chars", "write_chars") and
               ctx.all([ctx.eq(r.read_count, v["syscr"]), ctx.eq(r.write_count, v["syscw"]), ctx.eq(r.read_bytes, v["read_bytes"]), ctx.eq(r.write_bytes, v["write_bytes"]),
                        ctx.eq(r.read_chars, v["rchar"]), ctx.eq(r.write_chars, v["wchar"])]), "io-six-fields", detail=f"{exc!r}")
+
+
+@harness("C14.exits_mid_scan", quick=[dict(n=3)], thorough=[dict(n=3), dict(n=4)])
+def exits_mid_scan(ctx, n):
+    """the process exits (and is reaped) at a symbolic point of the scan -- possibly after one of its descriptors had been closed
+    harmlessly earlier in the same scan: a scan that lost the process raises NoSuchProcess, it does not return a partial list"""
+    k = simk.Kernel(ctx)
+    simk.system_files(k)
+    simk.full_process(k, 77)
+    for name in list(k.links):
+        if name.startswith("/proc/77/fd/"):
+            del k.links[name]
+    first = ctx.choice("first_descriptor", ["reg", "closed_at_readlink", "closed_at_fdinfo"])
+    fds, want = [], []
+    for i in range(n):
+        fd = 3 + 2 * i
+        fds.append(str(fd))
+        link, info, path = f"/proc/77/fd/{fd}", f"/proc/77/fdinfo/{fd}", f"/data/file{i}"
+        k.files[info] = "pos:\t5\nflags:\t0100002\nmnt_id:\t27\n"
+        k.links[link] = path
+        k.stats[path] = simk.StatResult()
+        if i == 0 and first == "closed_at_readlink":
+            k.links[link] = simk.oserr(errno.ENOENT, link)
+        elif i == 0 and first == "closed_at_fdinfo":
+            k.files[info] = simk.oserr(errno.ENOENT, info)
+        else:
+            want.append((path, fd))
+    k.dirs["/proc/77/fd"] = fds
+    k.fault.pid = 77
+    with k.installed():
+        p = psutil.Process(77)
+        k.fault.prefix = "/proc/77"
+        k.naccess = 0
+        k.fault.vanish_at = ctx.int("exits_at_access", 0, 60)
+        try:
+            got, exc = p.open_files(), None
+        except (psutil.Error, OSError) as e:
+            got, exc = None, e
+        fired = list(k.fault.fired)
+    if fired:
+        ctx.prove(isinstance(exc, psutil.NoSuchProcess) and exc.pid == 77, "exit-mid-scan-NoSuchProcess", detail=f"first descriptor {first}; process gone at {fired[:1]}: open_files() -> {got if exc is None else repr(exc)}")
+    else:
+        ctx.prove(exc is None and [(g.path, g.fd) for g in got] == want, "exactly-regular-files", detail=f"{exc!r} {got}")
 
 
 @harness("C14.fresh_in_oneshot", quick=[dict(what=w) for w in ("num_fds", "open_files")])
